@@ -269,6 +269,9 @@ pub struct Cfg {
     /// `Age` may also move the identifier counter to `live identifier + d` for these distances
     /// (identifiers that alias a live one modulo a power of two)
     pub age_aliases: Vec<u16>,
+    /// after the program the application keeps polling (benign environment) until the handle is dead;
+    /// for keep-alive families with a broker that never answers PINGREQ
+    pub drain_until_dead: bool,
 }
 
 #[derive(Copy, Clone, Debug, PartialEq, Eq)]
@@ -320,6 +323,7 @@ impl Cfg {
             preludes: Vec::new(),
             must_reach: Vec::new(),
             age_aliases: Vec::new(),
+            drain_until_dead: false,
         }
     }
     pub fn has(&self, p: &str) -> bool {
